@@ -29,7 +29,7 @@
 (***************************************************************************)
 EXTENDS MatrixBase
 
-CONSTANTS Versions, Family      \* "single" | "pair"
+CONSTANTS Versions, Family      \* "single" | "core" | "pair"
 
 MaxFieldLen == 255
 MaxEventLen == 65536
@@ -87,7 +87,16 @@ PairsHardHard == {[size |-> 0, fields |-> [AllNatural EXCEPT ![q[1]] = HardCps, 
 PairsSoftSoft == {[size |-> 0, fields |-> [AllNatural EXCEPT ![q[1]] = SoftOnly, ![q[2]] = SoftOnly]] : q \in FieldPairs}
                  \cup {[size |-> 65536, fields |-> [AllNatural EXCEPT ![f] = SoftOnly]] : f \in Fields}
 Pairs == PairsSoftHard \cup PairsHardHard \cup PairsSoftSoft
-Scenarios == IF Family = "single" THEN Singles \cup Sizes ELSE Pairs
+\* the core of the single-field family (run for every registered version already in the quick tier: the
+\* lenient byte limit is granted per version): at and one over the code-point limit in ASCII, and the two
+\* all-multi-byte shapes around the byte limit
+CoreShapes(f) == LET fr == Frame(f)  k == (MaxFieldLen - fr) \div 2 IN
+                 {[cps |-> c, nwide |-> 0, width |-> 1] : c \in {255, 256}}
+                 \cup {[cps |-> fr + k + d, nwide |-> k + d, width |-> 2] : d \in {0, 1}}
+CoreSingles == UNION {{[size |-> 0, fields |-> [AllNatural EXCEPT ![f] = sh]] : sh \in CoreShapes(f)} : f \in Fields}
+Scenarios == CASE Family = "single" -> Singles \cup Sizes
+               [] Family = "core" -> CoreSingles \cup Sizes
+               [] Family = "pair" -> Pairs
 
 Init == /\ phase = "scenario" /\ out = "none"
         /\ \E v \in Versions, p \in Paths, s0 \in Scenarios : \E h \in HashesOf(p) :
